@@ -807,6 +807,33 @@ CHECKS['C12']['note'] = (
     'problem. Known finding F12 open; only the alias deviation is suppressed (any other deviation of forward_backward_pd from the '
     'documented iteration is a separate violation key).')
 
+CHECKS['C04']['technique'] = (
+    'Lean 4 proof over a two-layer model; guard trees, delegations, merge rules, constructor flags and out-of-place _call bodies '
+    'are extracted from the Python AST on every run and proved equal to the model; class-tree correspondence; oracle stream for '
+    'mixed-field trees')
+CHECKS['C04']['text'] = (
+    'Proof, CONDITIONAL on leaf hypotheses. For every single-field expression tree (unbounded depth, all scalars of the field '
+    'including 0, each marked Python-Real or not, arbitrary nonlinear leaves), the object built by the dispatch AS EXTRACTED from '
+    'the source evaluates to the documented-table value, under EnvOK (flagged-linear leaves are R-linear, with R the scalars the '
+    'leaf commutes with, e.g. the reals for RealPart-based leaves; Functional leaves return scalars) and with total division. '
+    'Domain, range and Functional-ness are those of the typing rules and ill-typed expressions are rejected (unconditional). A set '
+    'is_linear flag implies R-linearity (conditional) and the implied flag is always set (conditional). 14 theorems: conditional on '
+    'EnvOK: build_sound_inv, build_sound, linear_flag_sound, build_sound_inplace, linear_flag_complete, extracted_dispatch_sound; '
+    'unconditional apart from LeavesWf: build_type, build_total, build_rejects, buildT_eq_build(_aux); unconditional: '
+    'flag_table_matches, call_table_matches; inplace_operand_order is commutativity of operand order only (buffers and aliasing '
+    'belong to C03/C10).')
+CHECKS['C04']['note'] = (
+    'Executed definitions with no theorem: the driver\'s leaf maps; the in-place statement lists (source-text pins, each a separate '
+    'obligation); constructor argument checks and MRO / reflected-first rules (hand-modelled, correspondence-tested); mixed rn/cn '
+    'trees (oracle only). The override scan covers operator.py, functional.py, default_functionals.py and the live class hierarchy '
+    '(211 Operator subclasses). Excluded: vanishing quotient divisors, A/0 (either a raise or an inf-scalar operator is accepted), '
+    'float overflow, rounding (dyadic grid, degree <= 12, exact compare <= 45 bits, else 1e-9). Not generated: ndarray/list '
+    'operands, product and discretised spaces, field-domain evaluation points. Fixed in /repo: C04-F1, C04-F2 (a87a1d2: A*a -> a*A '
+    'only for Real scalars), C04-F3 (0630db6: f*A is a FunctionalComp only if fields agree).')
+CHECKS['C18']['note'] = CHECKS['C18']['note'] + (
+    ' Generator: equal-length axes with mixed per-axis shift tuples are enumerated in the factor (n-d) and FourierTransform '
+    'streams; a list of expected strata (EXPECTED_BRANCHES) is enforced and an unhit one fails the run.')
+
 NOT_YET = {}
 
 
